@@ -45,7 +45,8 @@ def jobs(tier, seed):
     m = 8 if tier == "quick" else 48
     js += [{"sub": "wide", "chunk": i, "of": m} for i in range(m)]
     js.append({"sub": "struct", "chunk": 0, "of": n, "hashseed": 1 + seed % 1000, "primary": False})
-    js.append({"sub": "wide", "chunk": 0, "of": m, "hashseed": 1 + seed % 1000, "primary": False})
+    js += [{"sub": "wide", "chunk": i, "of": m, "hashseed": hs, "primary": False} for i in range(0, m, max(1, m // 8))
+           for hs in (1 + seed % 1000, 3, 5)]
     return js
 
 
@@ -92,6 +93,7 @@ def check_list(acc, desc, structural, repeat=False):
     gates = {n for n in cone if c.graph.nodes[n]["type"] in space.ALL_GATES}
     covered = set()
     earlier = set()
+    seen_sig = {}
     for idx, sg in enumerate(sgs):
         so = set(sg.outputs())
         if len(so) != 1:
@@ -125,6 +127,14 @@ def check_list(acc, desc, structural, repeat=False):
                                       f"supergate {sorted(so)}: inputs {sl[a]} and {sl[b]} have common transitive fan-in")
                         return None
         earlier |= internal
+        # all supergates are sub-circuits of ONE fan-in-limited circuit: a node that is internal to two of them has
+        # one type and one fan-in
+        for n in internal:
+            sig = (sg.graph.nodes[n].get("type"), frozenset(sg.graph.pred[n]))
+            if seen_sig.setdefault(n, sig) != sig:
+                acc.violation("list", "supergates-disagree-on-node", case,
+                              f"node {n}: {seen_sig[n][0]}{sorted(seen_sig[n][1])} in one supergate, {sig[0]}{sorted(sig[1])} in another")
+                return None
     if not gates <= covered:
         acc.violation("list", "gate-not-covered", case, sorted(gates - covered))
         return None
@@ -260,6 +270,18 @@ def descs_struct(tier):
 
 
 def descs_wide(tier):
+    # a gate with more than two inputs shared by two or three outputs (the helper gates that limit its fan-in must
+    # be the same ones in every cone)
+    tt = ("and", "nor", "xor") if tier == "quick" else ("and", "or", "nand", "nor", "xor", "xnor")
+    for tw, t1, t2 in itertools.product(tt, repeat=3):
+        for width in (3, 4):
+            ins = [f"in{j}" for j in range(width)]
+            for third in (False, True):
+                nodes = [[x, "input", [], False] for x in ins]
+                nodes += [["w", tw, ins, False], ["o1", t1, ["w", ins[0]], True], ["o2", t2, ["w", ins[1]], True]]
+                if third:
+                    nodes.append(["o3", "not", ["w"], True])
+                yield {"name": "sharedwide", "nodes": nodes}
     for I, G, ar in bounds(tier)["wide"]:
         for gates in space.circuits(I, G, max_arity=ar, min_gates=1):
             if any(len(fi) > 2 for _t, fi in gates):
